@@ -187,6 +187,114 @@ theorem subrange_shortcut_sound (ivs : List Interval) (c : Chunk) (hc : ChunkWF 
   have := hb x hx
   exact (covered_iff ivs x.1).mpr ⟨i, hi, by omega, by omega⟩
 
+/-! ### native histogram chunks -/
+
+/-- when the encoding-aware chunk loop does not panic, it computes — encodings aside — what the
+    float loop computes (hence the specification's chunks) -/
+theorem codeChunksK_ok (ivs : List Interval) : ∀ (kcs out : List KChunk), codeChunksK ivs kcs = some out →
+    out.map (·.2) = codeChunks true ivs (kcs.map (·.2)) := by
+  intro kcs
+  induction kcs with
+  | nil => intro out h; simp [codeChunksK] at h; subst h; simp [codeChunks]
+  | cons kc kcs ih =>
+    intro out h
+    obtain ⟨hist, c⟩ := kc
+    unfold codeChunksK at h
+    simp only [List.map_cons]
+    unfold codeChunks
+    cases hmn : chunkMin c with
+    | none => simp only [hmn] at h ⊢; exact ih out h
+    | some mn =>
+      cases hmx : chunkMax c with
+      | none => simp only [hmn, hmx] at h ⊢; exact ih out h
+      | some mx =>
+        simp only [hmn, hmx] at h ⊢
+        split at h
+        · rename_i hsub; simp only [hsub, if_true]; exact ih out h
+        · rename_i hsub
+          simp only [hsub, if_false]
+          split at h
+          · rename_i hov
+            simp only [hov, if_true]
+            cases hr : codeChunksK ivs kcs with
+            | none => simp [hr] at h
+            | some rest =>
+              simp only [hr, Option.map_some, Option.some.injEq] at h
+              subst h
+              simp [ih rest hr]
+          · rename_i hov
+            simp only [hov, if_false]
+            split at h
+            · rename_i hemp; simp only [hemp, if_true]; exact ih out h
+            · rename_i hemp
+              simp only [hemp, if_false]
+              split at h
+              · cases h
+              · cases hr : codeChunksK ivs kcs with
+                | none => simp [hr] at h
+                | some rest =>
+                  simp only [hr, Option.map_some, Option.some.injEq] at h
+                  subst h
+                  simp [ih rest hr]
+
+/-- float chunks never make the loop panic -/
+theorem codeChunksK_float (ivs : List Interval) : ∀ (kcs : List KChunk), (∀ kc ∈ kcs, kc.1 = false) →
+    ∃ out, codeChunksK ivs kcs = some out := by
+  intro kcs
+  induction kcs with
+  | nil => intro _; exact ⟨[], rfl⟩
+  | cons kc kcs ih =>
+    intro hf
+    obtain ⟨hist, c⟩ := kc
+    have hh : hist = false := hf (hist, c) (by simp)
+    subst hh
+    obtain ⟨rest, hr⟩ := ih (fun k hk => hf k (by simp [hk]))
+    unfold codeChunksK
+    cases chunkMin c <;> cases chunkMax c <;> simp only [hr] <;> (try exact ⟨rest, rfl⟩)
+    split
+    · exact ⟨rest, rfl⟩
+    · split
+      · exact ⟨_, rfl⟩
+      · split
+        · exact ⟨rest, rfl⟩
+        · simp
+
+/-- C48 for blocks with native histogram chunks, at full strength: the rewrite does not panic -/
+def C48_hist_full : Prop :=
+  ∀ (reqs : List Request) (block : List KSeries), ReqsWF reqs → (rewriteCodeK reqs block).isSome = true
+
+/-- … is false: a histogram chunk [1, 10] with the interval [0, 2] has to be re-encoded, and
+    `delChunkSeriesIterator.Next` calls `At()` on a histogram iterator (known limitation, the
+    iterator carries a TODO for native histograms). -/
+theorem C48_hist_full_false : ¬ C48_hist_full := by
+  intro h
+  have := h [⟨[⟨"a", fun v => v == "1"⟩], [⟨0, 2⟩]⟩] [⟨[("a", "1")], [(true, [(1, 1), (10, 10)])]⟩]
+    (by intro r hr i hi; simp at hr; subst hr; simp at hi; subst hi; unfold Interval.WF; decide)
+  revert this
+  decide
+
+/-- … and whenever the rewrite of a block with histogram chunks does not panic, every series it
+    writes is — encodings aside — what the float rewrite writes (hence the specification's). -/
+theorem C48_hist_partial (reqs : List Request) (s : KSeries) (r : Option KSeries)
+    (h : codeSeriesK reqs s = some r) : r.map (·.erase) = codeSeries true reqs s.erase := by
+  unfold codeSeriesK at h
+  unfold codeSeries
+  simp only [KSeries.erase]
+  split at h
+  · rename_i hw; simp only [Option.some.injEq] at h; subst h; simp [hw]
+  · rename_i hw
+    simp only [hw, Bool.false_eq_true, if_false]
+    cases hc : codeChunksK (mergedIntervals reqs s.labels) s.chunks with
+    | none => simp [hc] at h
+    | some cs =>
+      simp only [hc, Option.some.injEq] at h
+      subst h
+      have := codeChunksK_ok _ _ _ hc
+      simp only [← this]
+      cases cs with
+      | nil => simp
+      | cons _ _ => simp [KSeries.erase]
+
 /-- Regenerated obligation: what `delChunkSeriesIterator.Next` does when the deleted iterator of a
     chunk yields no sample: it goes on with the next chunk (`Driver/Misc.lean: rwSkipEmpty = true`,
     so `C48_fixed` is the theorem about the code as it is now; before the repair the branch ended
@@ -201,5 +309,7 @@ example : rewriteCode false [⟨[⟨"a", fun v => v == "1"⟩], [⟨0, 2⟩, ⟨
     [⟨[("a", "1")], [[(1, 1), (10, 10)], [(20, 20), (30, 30)]]⟩] = [] := by decide
 example : reqMatches [("a", "1")] ⟨[⟨"b", fun v => v != "x"⟩], []⟩ = false := by decide
 example : addIv ⟨3, 4⟩ [⟨1, 2⟩, ⟨6, 7⟩] = [⟨1, 4⟩, ⟨6, 7⟩] := by decide
+example : codeChunksK [⟨0, 12⟩] [(true, [(1, 1), (10, 10)]), (false, [(20, 20)])] = some [(false, [(20, 20)])] := by decide
+example : codeChunksK [⟨0, 2⟩] [(true, [(1, 1), (10, 10)])] = none := by decide
 
 end Thanos.Rewrite
